@@ -351,6 +351,32 @@ Structured(ci, M, s, uq, len) ==
    Mut(ci, "fri.rem_halve", rl, IF rm.l >= 2 * s.ex THEN <<SetInt(rl, rl.v \div 2), Repl(rm.o + rm.l \div 2, rm.l \div 2, <<>>)>> ELSE <<>>)}
 
 (***************************************************************************)
+(* Another extension degree, coherently: the extension byte of the options *)
+(* is changed to e2 and EVERY extension-field section (auxiliary and        *)
+(* constraint query values, both out-of-domain blobs, every FRI layer's    *)
+(* values, the remainder) is re-encoded at the new element width (zero     *)
+(* coordinates appended to / high coordinates cut from every element) with *)
+(* its length prefix adjusted: a well-formed proof of a different shape.    *)
+(***************************************************************************)
+IsEBlob(f) == (f.n = "q.vals" /\ f.g \in {"tq1", "cq"}) \/ f.n \in {"ood.tvals", "ood.qvals", "fl.vals", "fri.rem"}
+RetagBlob(f, ex, exn) ==
+  [j \in 1..(f.l \div ex) |-> IF exn > ex THEN Repl(f.o + j * ex, 0, Zeros(exn - ex))
+                                        ELSE Repl(f.o + j * ex - (ex - exn), ex - exn, <<>>)]
+RECURSIVE RetagFrom(_, _, _, _)
+RetagFrom(M, p, ex, exn) ==
+  IF p > Len(M) THEN <<>>
+  ELSE (IF IsEBlob(M[p])
+          THEN LET ood == M[p].n \in {"ood.tvals", "ood.qvals"}
+                   lf  == M[IF ood THEN p - 2 ELSE p - 1]
+                   nl  == (M[p].l \div ex) * exn + (IF ood THEN 1 ELSE 0)
+               IN <<SetInt(lf, nl)>> \o RetagBlob(M[p], ex, exn)
+          ELSE <<>>)
+       \o RetagFrom(M, p + 1, ex, exn)
+ExtRetag(ci, M, s) ==
+  LET xe == Fld(M, "ctx", "opt.ext") IN
+  {Mut(ci, "ext.retag", xe, <<Repl(xe.o, 1, <<e2>>)>> \o RetagFrom(M, 1, s.ex, s.eb * e2)) : e2 \in {1, 2, 3} \ {xe.v}}
+
+(***************************************************************************)
 (* Length-compensating edits: a length prefix plus one, one byte inserted  *)
 (* at the end of what it announces                                         *)
 (***************************************************************************)
@@ -422,6 +448,7 @@ MutsOf(r) ==
   \cup EndMuts(ci, r.len)
   \cup Structured(ci, M, s, r.uq, r.len)
   \cup RowCountMuts(ci, M, s, r.uq)
+  \cup ExtRetag(ci, M, s)
   \cup Compensating(ci, M)
   \cup Header1(ci, M) \cup HeaderWide(ci, M)
   \cup (IF Pairs THEN PairMuts(ci, M) ELSE {})
